@@ -89,6 +89,9 @@ namespace TAO_PEGTL_NAMESPACE::internal
 
       [[nodiscard]] char peek_char( const std::size_t offset = 0 ) const noexcept
       {
+#if defined( TAO_PEGTL_VERIF )
+         TAO_PEGTL_VERIF_PEEK( begin(), offset, end() );
+#endif
          return begin()[ offset ];
       }
 
